@@ -19,7 +19,9 @@ RULE = (
     "Dataset-valued functions) x inputs (grid / case set) x batching x "
     "shuffle x grow order x farmer kind {Runner, Runner->DataFrame, "
     "Harvester, Sampler} x overwrite policy x pre-existing harvested data "
-    "(identical or conflicting epoch) x reload of the crop by name (farmer "
+    "(identical or conflicting epoch; harvested by another session or by the "
+    "farmer itself) x an intermediate harvest of other points by another "
+    "session between sow and reap x reload of the crop by name (farmer "
     "unpickled, function re-attached) before grow and/or before reap.  "
     "Oracle (differential + independent): the reaped Dataset equals, "
     "variable by variable after aligning dimension order, the Dataset of "
@@ -173,6 +175,10 @@ def run_case(case):
             for f in (fm, ft):
                 rp, _, _, _, _ = build_runner(x, desc, epoch=pre["epoch"])
                 hp = x.Harvester(rp, data_name=f.data_name, engine=f.engine)
+                if pre.get("by_farmer") and pre["epoch"] == 0:
+                    # the farmer itself did the earlier harvest, so it holds
+                    # the full dataset in memory when the crop is sown
+                    hp = f
                 if case["mode"] == "combos":
                     sub = {a: list(v)[:max(1, len(v) - pre["drop"])]
                            for a, v in case["args"]}
@@ -212,6 +218,22 @@ def run_case(case):
             for i in order:
                 crop.grow(i)
             crop.grow_missing()
+        between = None
+        if farmer_kind == "harvester" and case.get("between") and \
+                case["mode"] == "combos":
+            # somebody else harvests OTHER points into the same file while the
+            # crop is out growing (in both directories alike)
+            a0, v0 = case["args"][0]
+            extra_lab = "zz-extra" if isinstance(v0[0], str) else \
+                (max(v0) + 1000 if all(isinstance(q, int) for q in v0)
+                 else max(v0) + 1000.5)
+            between = {a: ([extra_lab] if a == a0 else list(v))
+                       for a, v in case["args"]}
+            for f in (fm, ft):
+                rb, _, _, _, _ = build_runner(x, desc)
+                hb = x.Harvester(rb, data_name=f.data_name, engine=f.engine)
+                with under_test("intermediate harvest by another session"):
+                    hb.harvest_combos(between, verbosity=0)
         if case.get("reload_before_reap"):
             with under_test("reload crop by name"):
                 crop = x.Crop(name="c6", parent_dir=main)
@@ -304,6 +326,13 @@ def run_case(case):
                 a = x.load_ds(fm.data_name, engine=fm.engine)
                 b = x.load_ds(ft.data_name, engine=ft.engine)
             same_dataset(a, b, "harvester file: crop vs direct")
+            if between is not None:
+                a0 = case["args"][0][0]
+                require(between[a0][0] in a[a0].values.tolist(),
+                        "intermediate-harvest-lost",
+                        f"the point {a0}={between[a0][0]!r} harvested by "
+                        f"another session while the crop was growing is no "
+                        f"longer in the file: {a[a0].values.tolist()}")
             full = farmer_now.full_ds
             same_dataset(full, a, "harvester full_ds vs its file")
         if farmer_kind == "sampler":
@@ -317,7 +346,8 @@ def run_case(case):
 
     dim_const = any(h == "constant" for h in desc["dim_coords"].values())
     nt = dim_const or bool(desc["resources"]) or reloaded or \
-        (to_df and bool(case.get("shuffle"))) or bool(pre)
+        (to_df and bool(case.get("shuffle"))) or bool(pre) or \
+        between is not None
     return {"nontrivial": nt,
             "classes": [f"farmer={farmer_kind}", f"mode={case['mode']}",
                         "reloaded" if reloaded else "no-reload",
@@ -372,7 +402,9 @@ def strategy(draw):
         case["overwrite"] = draw(st.sampled_from([None, True, False]))
         if draw(st.booleans()):
             case["pre"] = {"epoch": draw(st.sampled_from([0, 0, 1])),
-                           "drop": draw(st.integers(0, 2))}
+                           "drop": draw(st.integers(0, 2)),
+                           "by_farmer": draw(st.booleans())}
+        case["between"] = draw(st.sampled_from([False, True]))
     return case
 
 
